@@ -341,7 +341,12 @@ func BuildLedger(t *Trans) *Ledger {
 
 // minDepositOf = max(MinDeposit, basePrice*multiple) with the base price parsed from the published pricing text.
 func minDepositOf(v *View, pricingText string) *big.Int {
-	base := basePriceOf(pricingText)
+	rp := parseRefPricing(pricingText)
+	base := rp.Base
+	if rp.Denom != "" && rp.Denom != v.Params.BaseDenom {
+		// a price quoted in another token has no amount in the base denomination: only the global minimum applies
+		base = new(big.Int)
+	}
 	m := new(big.Int).Mul(base, bi(v.Params.MinDepositMultiple))
 	md := v.Params.MinDeposit.AmountOf(denom).BigInt()
 	if m.Cmp(md) < 0 {
